@@ -5,6 +5,22 @@ ROOT = os.path.dirname(os.path.dirname(os.path.abspath(__file__)))
 COQ = os.path.join(ROOT, "coq")
 OCAML = os.path.join(ROOT, "ocaml")
 HARNESS = os.path.join(ROOT, "harness")
+# development aid (never set by the registered commands): VERIF_ALT_REPO=<scratch tree of the library> makes the executor
+# build from that tree through a scratch copy of the harness crate, so that a seeded change can be examined while /repo
+# itself stays untouched
+ALT_REPO = os.environ.get("VERIF_ALT_REPO")
+if ALT_REPO:
+    import hashlib, shutil
+    _alt = os.path.join("/tmp/wk", "alt_harness_" + hashlib.sha1(ALT_REPO.encode()).hexdigest()[:10])
+    os.makedirs(_alt, exist_ok=True)
+    if os.path.exists(os.path.join(_alt, "src")):
+        shutil.rmtree(os.path.join(_alt, "src"))
+    shutil.copytree(os.path.join(HARNESS, "src"), os.path.join(_alt, "src"))
+    open(os.path.join(_alt, "Cargo.toml"), "w").write(open(os.path.join(HARNESS, "Cargo.toml")).read().replace('path = "/repo"', 'path = "%s"' % ALT_REPO))
+    shutil.copy(os.path.join(os.path.join(ROOT, "harness"), "Cargo.lock"), os.path.join(_alt, "Cargo.lock")) if not os.path.exists(os.path.join(_alt, "Cargo.lock")) else None
+    if os.path.isdir(os.path.join(HARNESS, ".cargo")) and not os.path.isdir(os.path.join(_alt, ".cargo")):
+        shutil.copytree(os.path.join(HARNESS, ".cargo"), os.path.join(_alt, ".cargo"))
+    HARNESS = _alt
 REPO = "/repo"
 ENV = dict(os.environ, CARGO_NET_OFFLINE="true")
 ALLOWED_AXIOMS = set()   # the development is axiom-free; anything printed besides "Closed under the global context" fails
